@@ -7,9 +7,11 @@
     [model_line] what every maximal schedule of a loss-free run must show, per layer and origin
                  (schedule independent by the theorems).
     [conform_line] replays the implementation's observed event trace on the model: every event
-                 must be an enabled label with the same value, the items dropped with cancelled
-                 futures must be the same, and the model must have nothing left to do where the
-                 implementation went idle. *)
+                 must be an enabled label with the same value, every observed drop of an item
+                 must be one the model allows at that very point ([ED]), the items dropped with
+                 cancelled futures must be the same, and the model must have nothing left to do
+                 where the implementation went idle.  Traces of any length are judged label by
+                 label; nothing is skipped. *)
 From Coq Require Import List Arith NArith Bool String.
 From PV Require Import Model.Processors Lib.Show.
 Import ListNotations.
@@ -59,16 +61,64 @@ Fixpoint layer_lines (cs : list lcfg) (I : list N) : list string :=
 Definition model_line (cs : list lcfg) (xs : list N) : string :=
   join " / " (layer_lines cs xs) ++ " => " ++ show_list show_N "," (chain_spec cs xs).
 
-Fixpoint replay (s : stream) (tr : list label) (n : nat) : stream * option nat :=
-  match tr with
-  | [] => (s, None)
-  | a :: r => match tstep s a with Some s' => replay s' r (S n) | None => (s, Some n) end
+(** Observed events: a model label, or [ED d y] = the harness saw the intermediate item [y] of the
+    layer [d] levels below the outermost one being DROPPED (the token's destructor ran before any
+    [process] consumed it).  The model loses an item only inside a [Recv] step that cancels a
+    cancellable hand-over, so an observed drop is accepted only (1) while that layer's [next()]
+    holds exactly [y], (2) if the model allows that hand-over to be cancelled ([cancellable]:
+    [second.process y] may suspend) and (3) if the very next event is that layer's [Recv] (tokio
+    drops the losing futures of a select! before the winning branch's handler runs). *)
+Inductive ev := EL (a : label) | ED (d : nat) (y : N).
+
+Fixpoint layer_at (s : stream) (d : nat) : option (lcfg * layer) :=
+  match s with
+  | Src _ _ => None
+  | Lay c up l => match d with O => Some (c, l) | S d' => layer_at up d' end
   end.
 
-Definition conform_line (cs : list lcfg) (xs : list N) (tr : list label) (lost_obs : list N) : string :=
+Definition in_hand (s : stream) (d : nat) : option (lcfg * N) :=
+  match layer_at s d with
+  | Some (c, l) => match tk l with TSel (NHand y) => Some (c, y) | _ => None end
+  | None => None
+  end.
+
+Definition drop_allowed (s : stream) (d : nat) (y : N) : bool :=
+  match in_hand s d with
+  | Some (c, y') => N.eqb y y' && cancellable c (NHand y')
+  | None => false
+  end.
+
+Definition recv_at (d : nat) (e : ev) : bool :=
+  match e with EL (L d' (Recv _)) => Nat.eqb d d' | _ => false end.
+
+Inductive verdict :=
+| VDone
+| VReject (n : nat) (holding : option N)   (* label not enabled; the item in hand if it was a Recv *)
+| VDrop (n : nat) (y : N).                 (* observed drop the model does not allow *)
+
+Fixpoint replay (s : stream) (tr : list ev) (n : nat) : stream * verdict :=
+  match tr with
+  | [] => (s, VDone)
+  | EL a :: r =>
+      match tstep s a with
+      | Some s' => replay s' r (S n)
+      | None =>
+          (s, VReject n match a with
+                        | L d (Recv _) => match in_hand s d with Some (_, y) => Some y | None => None end
+                        | _ => None
+                        end)
+      end
+  | ED d y :: r =>
+      if drop_allowed s d y && match r with e :: _ => recv_at d e | [] => false end
+      then replay s r (S n) else (s, VDrop n y)
+  end.
+
+Definition conform_line (cs : list lcfg) (xs : list N) (tr : list ev) (lost_obs : list N) : string :=
   match replay (init cs xs) tr 0 with
-  | (_, Some n) => "REJECT@" ++ show_nat n
-  | (s, None) =>
+  | (_, VReject n None) => "REJECT@" ++ show_nat n
+  | (_, VReject n (Some y)) => "REJECT@" ++ show_nat n ++ " input-received-while-next()-holds-" ++ show_N y
+  | (_, VDrop n y) => "DROP-NOT-ALLOWED@" ++ show_nat n ++ " item-" ++ show_N y
+  | (s, VDone) =>
       if negb (quiescent s) then "NOT-QUIESCENT"
       else if negb (eqb_list N.eqb (lost_of s) lost_obs) then "LOST-MISMATCH " ++ show_list show_N "," (lost_of s)
       else "OK"
